@@ -2,6 +2,7 @@
 # mut-eval.sh <mutation-dir> <Cxx> [more Cxx...]: verify a seeded mutation and run the given checks against it.
 # 1. scratch worktree of /repo HEAD; apply patch.diff; build; full suite must pass
 # 2. demo test must fail with the patch and pass without
+# FAST=1 skips steps 1-2 (already confirmed) and only applies the patch
 # 3. VERIF_REPO=<scratch> bin/vcheck Cxx --tier quick  -> VIOLATION expected
 set -u
 export GOFLAGS=-mod=mod GOPROXY=off GOSUMDB=off GOTOOLCHAIN=local
@@ -15,6 +16,10 @@ pkgdir=.
 if [ -n "$demo" ] && grep -q "^package internal" "$demo"; then pkgdir=internal; fi
 [ -n "$demo" ] && cp "$demo" $pkgdir/
 tname=$(grep -o "func Test[A-Za-z0-9_]*" "$demo" | head -1 | sed 's/func //')
+if [ "${FAST:-0}" = 1 ]; then
+  git apply $M/patch.diff || { echo "PATCH DOES NOT APPLY"; exit 3; }
+  go build ./... || exit 4
+else
 echo "== demo on unmodified tree ($tname)"
 (cd $pkgdir && unshare -rn bash -c "ip link set lo up; go test -vet=off -count=1 -run '^${tname}\$' . 2>&1" | tail -3)
 git apply $M/patch.diff || { echo "PATCH DOES NOT APPLY"; exit 3; }
@@ -25,6 +30,7 @@ go build ./... && unshare -rn bash -c "ip link set lo up; go test -vet=off -coun
 echo "== demo with the patch"
 (cd $pkgdir && unshare -rn bash -c "ip link set lo up; go test -vet=off -count=1 -run '^${tname}\$' . 2>&1" | tail -4)
 rm -f $pkgdir/$(basename "$demo")
+fi
 for P in "$@"; do
   echo "== vcheck $P against the mutant"
   (cd /verif && VERIF_REPO=$S bin/vcheck $P --tier quick 2>&1 | cut -c1-400 | grep -E "^(VIOLATION|OK|KNOWN|  broken|  failing)" | head -6)
